@@ -3,7 +3,7 @@
   About Model/Engine.lean: `create_operation` (ids increase with submission), `dequeue_operation`
   (queue priority), `sort_operation_deque` at CONNACK (protocol.rs).
 -/
-import GV.Proofs.EngineBasics
+import GV.Proofs.EngineWF
 namespace GV.Props.C10
 open GV
 
@@ -94,5 +94,36 @@ theorem handshake_serves_only_high_priority (e : Engine) (id : Nat) (e' : Engine
 
 /-- non-vacuity -/
 example : sortIds [7, 3, 9, 1] = [1, 3, 7, 9] := by decide
+
+end GV.Props.C10
+
+namespace GV.Props.C10
+open GV
+
+/-! ### every history -/
+
+/-- **Submission order.**  After any sequence of events, for any configuration: while connected, the resubmit queue
+    (retransmissions) and the user queue are both in ascending operation-id order — the order of submission — and
+    `dequeue_takes_heads_in_priority_order` takes operations from their heads, the resubmit queue first.  So
+    operations leave each queue in submission order, retransmissions before new traffic. -/
+theorem queues_in_submission_order (cfg : Config) (evs : List Event)
+    (hs : (runEvents (Engine.new cfg) evs).1.state = .connected) :
+    sortedNat (runEvents (Engine.new cfg) evs).1.resubQ = true ∧ sortedNat (runEvents (Engine.new cfg) evs).1.userQ = true :=
+  let h := (inv_after cfg evs).2.2.2 hs
+  ⟨h.2, h.1⟩
+
+/-- every queued operation id was handed out earlier: ids are handed out in increasing order, so a later submission has
+    a larger id than anything queued -/
+theorem queued_ids_are_older (cfg : Config) (evs : List Event) :
+    ∀ id ∈ (runEvents (Engine.new cfg) evs).1.userQ ++ (runEvents (Engine.new cfg) evs).1.resubQ ++
+           (runEvents (Engine.new cfg) evs).1.highQ ++ (runEvents (Engine.new cfg) evs).1.pendingWC,
+      id < (runEvents (Engine.new cfg) evs).1.nextOpId :=
+  (inv_after cfg evs).2.1.qb.1
+
+/-- non-vacuity: three operations submitted offline are queued in submission order once connected -/
+example : (runEvents (Engine.new {}) [.user 0 (.publish { qos := 1, topic := [97] } 7 none), .user 0 (.publish { qos := 0, topic := [98] } 8 none),
+      .user 0 (.subscribe { subscriptions := [{ topicFilter := [97] }] } 9 none),
+      .opened 1 100, .service 2 4096 0, .writeDone 3, .data 4 [0x20, 0x03, 0x00, 0x00, 0x00]]).1.userQ = [1, 2, 3] := by
+  decide +kernel
 
 end GV.Props.C10
